@@ -64,6 +64,7 @@ pub fn run(cx: &mut Ctx) {
     unconsumed_text(cx, &src);
     grouped_padding(cx, &src);
     crate::rules::float_rules::float_spec_corner_cases(cx, "C18.G2");
+    type_dispatch(cx);
 }
 
 /// A3: grouped digits are extended to the width only under zero padding.
@@ -94,11 +95,31 @@ fn grouped_zero_padding(cx: &mut Ctx, src: &sm::Src) {
     for (fname, fill) in [("none", V::Opt(None)), ("'0'", V::Opt(Some(Box::new(V::Char('0' as u32))))), ("'x'", V::Opt(Some(Box::new(V::Char('x' as u32)))))] {
         for (aname, align) in [("none", V::Opt(None)), ("=", V::Opt(Some(Box::new(V::Enum("FormatAlign::AfterSign".into()))))), (">", V::Opt(Some(Box::new(V::Enum("FormatAlign::Right".into())))))] {
             for (wname, width) in [("none", V::Opt(None)), ("10", V::Opt(Some(Box::new(V::Int(10)))))] {
-                let mut m = Machine::new(&methods);
-                m.set("self.fill", fill.clone());
-                m.set("self.align", align.clone());
-                m.set("self.width", width.clone());
-                m.set("self.grouping_option", V::Opt(Some(Box::new(V::Enum("FormatGrouping::Comma".into())))));
+                let fields: Vec<(&str, V)> = vec![("self.fill", fill.clone()), ("self.align", align.clone()), ("self.width", width.clone()), ("self.grouping_option", V::Opt(Some(Box::new(V::Enum("FormatGrouping::Comma".into())))))];
+                // a private helper method of FormatSpec is interpreted in place (one level), with the same field values
+                let with_helpers = |recv: &V, name: &str, args: &[V]| -> Option<V> {
+                    if let Some(v) = methods(recv, name, args) {
+                        return Some(v);
+                    }
+                    if matches!(recv, V::Enum(s) if s == "self") {
+                        if let Some(h) = src.method("FormatSpec", name) {
+                            let mut hm = Machine::new(&methods);
+                            for (k, v) in &fields {
+                                hm.set(k, v.clone());
+                            }
+                            let params: Vec<String> = h.sig.inputs.iter().filter_map(|a| if let syn::FnArg::Typed(t) = a { Some(sm::tsc(&t.pat)) } else { None }).collect();
+                            for (p, a) in params.iter().zip(args) {
+                                hm.set(p, a.clone());
+                            }
+                            return hm.eval_fn_body(&h.block).ok();
+                        }
+                    }
+                    None
+                };
+                let mut m = Machine::new(&with_helpers);
+                for (k, v) in &fields {
+                    m.set(k, v.clone());
+                }
                 m.set("magnitude_str", V::Str("1234".into()));
                 m.set("prefix", V::Str(String::new()));
                 let want = if fname == "'0'" && aname == "=" && wname == "10" { 10 } else { 4 };
@@ -673,5 +694,92 @@ fn grouped_padding(cx: &mut Ctx, src: &sm::Src) {
     } else {
         bad.truncate(3);
         cx.fail(rule, &format!("{}/separate_integer", rule), &src.loc(sep_f), &format!("zero padding under grouping is wrong: {}", bad.join("; ")));
+    }
+}
+
+
+/// C18.T3: which presentation types each formatter accepts, decided by matching every FormatType value against the
+/// arms of the formatter's dispatch `match` in order.
+fn type_dispatch(cx: &mut Ctx) {
+    let rule = "C18.T3";
+    cx.rule(rule, "presentation types per object kind (Python: floats accept e E f F g G n % and none; ints accept b c d o x X n, the float types and none): every value of FormatType (variants read from the enum, Case payloads expanded) and `None` is matched against the arms of the dispatch `match self.format_type` of format_float / format_int in order; the selected arm is the UnknownFormatCode error exactly for the types Python rejects for that object — for floats d b o x X s c and the undefined 'N', for ints s and 'N'");
+    cx.floor(rule, 30);
+    let Ok(src) = sm::load(&cx.repo, "format/src/format.rs") else { return cx.anchor_missing(rule, "format/src/format.rs") };
+    let Some(en) = src.enum_named("FormatType") else { return cx.anchor_missing(rule, "enum FormatType") };
+    use crate::eval::{Machine, V};
+    let mut values: Vec<(String, V)> = vec![("None".into(), V::Opt(None))];
+    for v in &en.variants {
+        let name = v.ident.to_string();
+        match &v.fields {
+            syn::Fields::Unit => values.push((name.clone(), V::Opt(Some(Box::new(V::Enum(format!("FormatType::{}", name))))))),
+            syn::Fields::Unnamed(u) if u.unnamed.len() == 1 && sm::tsc(&u.unnamed[0].ty) == "Case" => {
+                for c in ["Lower", "Upper"] {
+                    values.push((format!("{}({})", name, c), V::Opt(Some(Box::new(V::Ctor(format!("FormatType::{}", name), vec![V::Enum(format!("Case::{}", c))]))))));
+                }
+            }
+            _ => cx.fail(rule, &format!("{}/variant/{}", rule, name), &src.loc(v), &format!("FormatType::{} has a payload the checker does not enumerate (fail closed)", name)),
+        }
+    }
+    let rejected: [(&str, &str, &[&str]); 2] = [
+        ("format_float", "float", &["Decimal", "Binary", "Octal", "Hex(Lower)", "Hex(Upper)", "String", "Character", "Number(Upper)"]),
+        ("format_int", "int", &["String", "Number(Upper)"]),
+    ];
+    for (mname, obj, rej) in rejected {
+        let Some(m) = src.method("FormatSpec", mname) else {
+            cx.anchor_missing(rule, mname);
+            continue;
+        };
+        // the dispatch: the match on the format type that has an UnknownFormatCode arm
+        let mut dispatch: Option<&syn::ExprMatch> = None;
+        sm::for_each_expr_in_block(&m.block, |e| {
+            if let syn::Expr::Match(mm) = e {
+                let sc = sm::tsc(&mm.expr);
+                if (sc == "&self.format_type" || sc == "self.format_type") && mm.arms.iter().any(|a| sm::tsc(&a.body).contains("UnknownFormatCode")) && dispatch.is_none() {
+                    dispatch = Some(mm);
+                }
+            }
+        });
+        let Some(mm) = dispatch else {
+            cx.fail(rule, &format!("{}/{}/dispatch", rule, obj), &src.loc(m), &format!("{} has no `match self.format_type` with an UnknownFormatCode arm (fail closed)", mname));
+            continue;
+        };
+        let no = |_: &V, _: &str, _: &[V]| -> Option<V> { None };
+        for (vname, v) in &values {
+            let mut selected: Option<&syn::Arm> = None;
+            let mut err: Option<String> = None;
+            for a in &mm.arms {
+                let mut mch = Machine::new(&no);
+                match mch.pat_matches(&a.pat, v) {
+                    Ok(true) => {
+                        if a.guard.is_some() {
+                            err = Some(format!("arm `{}` has a guard", sm::tsc(&a.pat)));
+                        }
+                        selected = Some(a);
+                        break;
+                    }
+                    Ok(false) => {}
+                    Err(e) => {
+                        err = Some(e);
+                        break;
+                    }
+                }
+            }
+            let key = format!("{}/{}/{}", rule, obj, vname);
+            match (selected, err) {
+                (_, Some(e)) => cx.fail(rule, &key, &src.loc(mm), &format!("{}: cannot decide which arm takes {} ({}; fail closed)", mname, vname, e)),
+                (None, None) => cx.fail(rule, &key, &src.loc(mm), &format!("{}: no arm takes {}", mname, vname)),
+                (Some(a), None) => {
+                    let is_err = sm::tsc(&a.body).contains("UnknownFormatCode");
+                    let want_err = rej.contains(&vname.as_str());
+                    if is_err == want_err {
+                        cx.ok(rule, &format!("{}: {} -> {}", mname, vname, if is_err { "UnknownFormatCode" } else { "formatted" }));
+                    } else if want_err {
+                        cx.fail(rule, &key, &src.loc(a), &format!("{}: presentation type {} is taken by the arm `{}`, which formats the {}; Python rejects this type for {} objects", mname, vname, sm::tsc(&a.pat), obj, obj));
+                    } else {
+                        cx.fail(rule, &key, &src.loc(a), &format!("{}: presentation type {} is rejected with UnknownFormatCode by the arm `{}`; Python accepts it for {} objects", mname, vname, sm::tsc(&a.pat), obj));
+                    }
+                }
+            }
+        }
     }
 }
